@@ -73,7 +73,7 @@ def gen_cases(run):
         w = rng.choice([[5, 1, 3, 6, 3, 4, 0.3], [4, 1, 1, 8, 4, 2, 0.1], [3, 1, 5, 3, 1, 3, 0.6], [6, 2, 4, 5, 2, 5, 0.2]])
         ops = gen_history(rng, B, L, w)
         cap = rng.choice([0, 1, 2, 8, 8, 9001, 9002])      # 9001 / 9002: the constructors ultragraph::new() and ultragraph::default()
-        cases.append(Case("ugraph", [B], ops, {"cap": cap}))
+        cases.append(Case("ugraph", [B], ops, {"cap": cap, "cloning": rng.random() < 0.3}))      # cloning: the graph is replaced by its clone before every third op
         dist["capacities"][cap] = dist["capacities"].get(cap, 0) + 1
         adds = sum(1 for o in ops if o[0] in (0, 1)); rems = sum(1 for o in ops if o[0] == 2)
         if rems and adds > rems: dist["index_reuse_histories"] += 1
@@ -92,7 +92,7 @@ def builds(run):
 
 def mk_diff(run, bins):
     return Differential(run, bins, lambda c: "ugraph_model_entry", None, check_entry=lambda c: "ugraph_check_entry",
-                        harness_head=lambda c: f"ugraph_{c.meta.get('cap', 0)}",
+                        harness_head=lambda c: f"ugraph{'c' if c.meta.get('cloning') else ''}_{c.meta.get('cap', 0)}",
                         nontrivial=lambda c: len(c.ops) >= 4 and any(o[0] in (2, 5) for o in c.ops))
 
 
